@@ -142,6 +142,13 @@ func (server *Server) serveConn(conn net.Conn) {
 }
 
 func (server *Server) tlsHandshakeWithTimeout(tlsConn *tls.Conn) error {
+	// crypto/tls interrupts a handshake asynchronously, so one that is started
+	// on an already cancelled context can still complete: a connection accepted
+	// while shutting down must not be served
+	if err := server.ctx.Err(); err != nil {
+		return err
+	}
+
 	if server.TLSHandshakeTimeout == 0 {
 		return tlsConn.HandshakeContext(server.ctx)
 	}
